@@ -1,4 +1,5 @@
 SPECIFICATION Spec
+CONSTANT MatchMode = "search"
 CONSTANT StoreLiteral = FALSE
 INVARIANTS DialedIsChecked CheckedIsPermitted ResolvedOnce PermittedLiteralAccepted MalformedRejected
 CHECK_DEADLOCK FALSE
